@@ -1,4 +1,4 @@
-use std::collections::HashSet;
+use std::collections::BTreeSet;
 
 use harper_core::{Mask, Masker, MutableDictionary, Span, WordMetadata};
 use tree_sitter::{Language, Node, Tree, TreeCursor};
@@ -41,7 +41,9 @@ impl TreeSitterMasker {
 
         byte_spans_to_char_spans(&mut ident_spans, &text);
 
-        let mut idents = HashSet::new();
+        // Ordered, so that which spelling survives when two identifiers differ only in letter
+        // case does not depend on the hasher's seed (and with it on the process and the run).
+        let mut idents = BTreeSet::new();
 
         for span in ident_spans {
             idents.insert(span.get_content(source));
